@@ -46,7 +46,7 @@ use cascette_protocol::cdn::streaming::{
     AdvancedRangeCoalescer, BandwidthMonitor, HttpClient, HttpRange, PrioritizedRequest, PriorityRequestQueue,
     RequestPriority, StreamingBlteProcessor, StreamingConfig, StreamingError, StreamingMetrics, ZeroCopyBuffer,
 };
-use serde_json::{Map, Value, json};
+use serde_json::{Value, json};
 use std::collections::BTreeMap;
 use std::sync::atomic::Ordering;
 use std::sync::{Arc, Mutex};
@@ -70,6 +70,9 @@ fn s<'a>(v: &'a Value, k: &str) -> &'a str {
 }
 fn panic_res(m: &str) -> Value {
     json!({"kind": "panic", "msg": m.chars().take(200).collect::<String>()})
+}
+fn short(e: &StreamingError) -> String {
+    e.to_string().lines().next().unwrap_or("").chars().take(120).collect()
 }
 fn err_name(e: &StreamingError) -> String {
     let d = format!("{e:?}");
@@ -540,7 +543,7 @@ fn run_sblte(p: &Value, em: &Emit) {
                 match s(op, "op") {
                     "all" => match proc_.decompress_from_url("mem", None).await {
                         Ok(v) => json!({"kind": "Ok", "same": v == whole, "len": v.len()}),
-                        Err(e) => json!({"kind": "Err", "err": err_name(&e), "msg": e.to_string().chars().take(160).collect::<String>()}),
+                        Err(e) => json!({"kind": "Err", "err": err_name(&e), "msg": short(&e)}),
                     },
                     "range" => {
                         let (a, n) = (u(op, "a") as usize, u(op, "n") as usize);
@@ -549,12 +552,12 @@ fn run_sblte(p: &Value, em: &Emit) {
                         let want: Vec<u8> = plains[lo..hi].concat();
                         match proc_.decompress_chunk_range("mem", a, n, None).await {
                             Ok(v) => json!({"kind": "Ok", "same": v == want, "len": v.len()}),
-                            Err(e) => json!({"kind": "Err", "err": err_name(&e), "msg": e.to_string().chars().take(160).collect::<String>()}),
+                            Err(e) => json!({"kind": "Err", "err": err_name(&e), "msg": short(&e)}),
                         }
                     }
                     "info" => match proc_.get_header_info("mem").await {
                         Ok(h) => json!({"kind": "Ok", "single": h.is_single_chunk, "chunks": h.chunk_count, "plain": sat(h.total_decompressed_size), "hdr": h.header_size}),
-                        Err(e) => json!({"kind": "Err", "err": err_name(&e), "msg": e.to_string().chars().take(160).collect::<String>()}),
+                        Err(e) => json!({"kind": "Err", "err": err_name(&e), "msg": short(&e)}),
                     },
                     other => panic!("driver: sblte op {other}"),
                 }
@@ -649,11 +652,8 @@ fn random_program(r: &mut Rng) -> Value {
                     8 => json!({"op": "retf", "cap": *r.pick(&[0u64, 1, size / 2, size, 2 * size + 1]), "fill": r.below(3)}),
                     _ => json!({"op": "get"}),
                 });
-                if ops.last().is_some_and(|o| o["op"] == "get") && r.below(10) >= 5 {
-                    // keep the handle counter in step with the gets actually issued
-                }
             }
-            // recount the handles: every "get" hands out the next one
+            // a "ret" names a handle that has been given out by then (every "get" hands out the next one)
             let mut seen = 0u64;
             for o in &mut ops {
                 if o["op"] == "get" {
@@ -664,6 +664,13 @@ fn random_program(r: &mut Rng) -> Value {
                 }
             }
             json!({"fam": "buf", "cfg": {"size": size, "maxp": maxp}, "ops": ops})
+        }
+        8 if r.chance(1, 2) => {
+            let n = 1 + r.below(6);
+            let chunks: Vec<Value> = (0..n).map(|_| json!({"m": *r.pick(&["N", "Z"]), "n": *r.pick(&[0u64, 1, 3, 4, 7, 8, 100, 5000])})).collect();
+            let multi = n > 1 || r.chance(1, 2);
+            let ops = vec![json!({"op": "all"}), json!({"op": "info"}), json!({"op": "range", "a": r.below(n + 1), "n": r.below(n + 2)})];
+            json!({"fam": "sblte", "cfg": {"chunks": chunks, "multi": multi}, "ops": ops})
         }
         _ => {
             let win = *r.pick(&["1h", "1h", "1h", "max"]);
@@ -716,5 +723,4 @@ fn main() {
     if stats.skipped > 0 {
         std::process::exit(3);
     }
-    let _ = Map::<String, Value>::new();
 }
